@@ -180,6 +180,33 @@ def run_rw(pe, acc, case):
                         sorted(wl), reps, kinds, allc, form, bad))
                 else:
                     acc.ok((case['w'], tuple(reps), kinds, allc, form), set(kinds) != {'full'} or len(reps) < len(wl) or len(wl) > 1, 'reweight')
+    # list form with ALL subset-kind combinations in one call, forward and reversed: entries with equally many
+    # but different configurations (suffix / every-other / pick) must not influence each other
+    if 'kinds' not in case:
+        entries = []
+        for kinds in combos:
+            ol = {n: subset(wl[n], kd) for n, kd in zip(reps, kinds)}
+            osamp = samples_for(ol, ofun, ('o', case['w'], tuple(reps), kinds))
+            entries.append((kinds, ol, osamp, mk(pe, ol, osamp)))
+        for allc in (False, True):
+            for order in ('fwd', 'rev'):
+                ent = entries if order == 'fwd' else entries[::-1]
+                sub = dict(case, all=allc, form='biglist', order=order)
+                try:
+                    res = pe.reweight(w, [e[3] for e in ent], all_configs=allc)
+                except Exception as e:
+                    acc.fail('reweight:biglist:raised', sub, 'list of %d aligned observables raised %r' % (len(ent), e))
+                    continue
+                bad = None
+                for (kinds, ol, osamp, o), r in zip(ent, res):
+                    bad = ref.close(expected_reweight(wl, wsamp, ol, osamp, allc), compare.to_ref(r), 1e-10)
+                    if bad:
+                        bad = 'entry with subset kinds %s: %s' % (kinds, bad)
+                        break
+                if bad:
+                    acc.fail('reweight:biglist', sub, 'weight %s, %d observables in one call (%s order), all_configs=%s: %s' % (sorted(wl), len(ent), order, allc, bad))
+                else:
+                    acc.ok((case['w'], tuple(reps), 'biglist', allc, order), True, 'reweight-list-of-all-kinds')
     acc.sample({'kind': 'reweight', 'weight_chains': sorted(wl), 'observable_replicas': reps, 'subset_kinds': KINDS, 'all_configs': [False, True]})
 
 
